@@ -22,6 +22,7 @@ func directiveIncludeSkipKeepNodes(walker *astvisitor.Walker, keepNodes bool) {
 		keepNodes: keepNodes,
 	}
 	walker.RegisterEnterDocumentVisitor(&visitor)
+	walker.RegisterLeaveDocumentVisitor(&visitor)
 	walker.RegisterEnterDirectiveVisitor(&visitor)
 }
 
@@ -30,11 +31,27 @@ type directiveIncludeSkipVisitor struct {
 
 	operation, definition *ast.Document
 	keepNodes             bool
+	// evaluated holds the directives to remove from their nodes after the walk:
+	// removing one right away shifts the directive list the walker is iterating over,
+	// and the directive following the removed one would never be visited
+	evaluated []evaluatedDirective
+}
+
+type evaluatedDirective struct {
+	node ast.Node
+	ref  int
 }
 
 func (d *directiveIncludeSkipVisitor) EnterDocument(operation, definition *ast.Document) {
 	d.operation = operation
 	d.definition = definition
+	d.evaluated = d.evaluated[:0]
+}
+
+func (d *directiveIncludeSkipVisitor) LeaveDocument(operation, definition *ast.Document) {
+	for _, item := range d.evaluated {
+		d.operation.RemoveDirectiveFromNode(item.node, item.ref)
+	}
 }
 
 func (d *directiveIncludeSkipVisitor) EnterDirective(ref int) {
@@ -65,7 +82,7 @@ func (d *directiveIncludeSkipVisitor) handleSkip(ref int) {
 	if !d.keepNodes && skip {
 		d.removeParentNode()
 	} else {
-		d.operation.RemoveDirectiveFromNode(d.Ancestors[len(d.Ancestors)-1], ref)
+		d.evaluated = append(d.evaluated, evaluatedDirective{node: d.Ancestors[len(d.Ancestors)-1], ref: ref})
 	}
 }
 
@@ -83,7 +100,7 @@ func (d *directiveIncludeSkipVisitor) handleInclude(ref int) {
 		return
 	}
 	if d.keepNodes || include {
-		d.operation.RemoveDirectiveFromNode(d.Ancestors[len(d.Ancestors)-1], ref)
+		d.evaluated = append(d.evaluated, evaluatedDirective{node: d.Ancestors[len(d.Ancestors)-1], ref: ref})
 	} else {
 		d.removeParentNode()
 	}
